@@ -130,6 +130,14 @@ namespace
     for(; a < addr + size; a += 4) access(a < addr ? addr : a, 4, is_write, pc);
   }
 
+  // an atomic operation is a scheduling point in this flavour (lock-free code gets its interleavings explored, and a loop
+  // that polls an atomic lets the other tasks run)
+  inline void atomic_point()
+  {
+    if(!g_active || t_inside || t_paused || sim::task_tls() == nullptr || sim::in_model()) return;
+    sim::yield("atomic");
+  }
+
   // synchronisation through an address (atomic variable, guard of a function-local static)
   inline void sync_acquire(uintptr_t addr)
   {
@@ -236,18 +244,18 @@ extern "C"
 
   // atomics: performed for real (sequentially consistent) and modelled as acquire+release on their address
 #define RT_ATOMIC(N, T) \
-  T __tsan_atomic##N##_load(const volatile T* a, int) { sync_acquire(uintptr_t(a)); return __atomic_load_n(a, __ATOMIC_SEQ_CST); } \
-  void __tsan_atomic##N##_store(volatile T* a, T v, int) { sync_release(uintptr_t(a)); __atomic_store_n(a, v, __ATOMIC_SEQ_CST); } \
-  T __tsan_atomic##N##_exchange(volatile T* a, T v, int) { sync_acquire(uintptr_t(a)); sync_release(uintptr_t(a)); return __atomic_exchange_n(a, v, __ATOMIC_SEQ_CST); } \
-  T __tsan_atomic##N##_fetch_add(volatile T* a, T v, int) { sync_acquire(uintptr_t(a)); sync_release(uintptr_t(a)); return __atomic_fetch_add(a, v, __ATOMIC_SEQ_CST); } \
-  T __tsan_atomic##N##_fetch_sub(volatile T* a, T v, int) { sync_acquire(uintptr_t(a)); sync_release(uintptr_t(a)); return __atomic_fetch_sub(a, v, __ATOMIC_SEQ_CST); } \
-  T __tsan_atomic##N##_fetch_and(volatile T* a, T v, int) { sync_acquire(uintptr_t(a)); sync_release(uintptr_t(a)); return __atomic_fetch_and(a, v, __ATOMIC_SEQ_CST); } \
-  T __tsan_atomic##N##_fetch_or(volatile T* a, T v, int) { sync_acquire(uintptr_t(a)); sync_release(uintptr_t(a)); return __atomic_fetch_or(a, v, __ATOMIC_SEQ_CST); } \
-  T __tsan_atomic##N##_fetch_xor(volatile T* a, T v, int) { sync_acquire(uintptr_t(a)); sync_release(uintptr_t(a)); return __atomic_fetch_xor(a, v, __ATOMIC_SEQ_CST); } \
-  T __tsan_atomic##N##_fetch_nand(volatile T* a, T v, int) { sync_acquire(uintptr_t(a)); sync_release(uintptr_t(a)); return __atomic_fetch_nand(a, v, __ATOMIC_SEQ_CST); } \
-  int __tsan_atomic##N##_compare_exchange_strong(volatile T* a, T* e, T v, int, int) { sync_acquire(uintptr_t(a)); sync_release(uintptr_t(a)); return __atomic_compare_exchange_n(a, e, v, false, __ATOMIC_SEQ_CST, __ATOMIC_SEQ_CST); } \
-  int __tsan_atomic##N##_compare_exchange_weak(volatile T* a, T* e, T v, int, int) { sync_acquire(uintptr_t(a)); sync_release(uintptr_t(a)); return __atomic_compare_exchange_n(a, e, v, false, __ATOMIC_SEQ_CST, __ATOMIC_SEQ_CST); } \
-  T __tsan_atomic##N##_compare_exchange_val(volatile T* a, T e, T v, int, int) { sync_acquire(uintptr_t(a)); sync_release(uintptr_t(a)); __atomic_compare_exchange_n(a, &e, v, false, __ATOMIC_SEQ_CST, __ATOMIC_SEQ_CST); return e; }
+  T __tsan_atomic##N##_load(const volatile T* a, int) { atomic_point(); sync_acquire(uintptr_t(a)); return __atomic_load_n(a, __ATOMIC_SEQ_CST); } \
+  void __tsan_atomic##N##_store(volatile T* a, T v, int) { atomic_point(); sync_release(uintptr_t(a)); __atomic_store_n(a, v, __ATOMIC_SEQ_CST); } \
+  T __tsan_atomic##N##_exchange(volatile T* a, T v, int) { atomic_point(); sync_acquire(uintptr_t(a)); sync_release(uintptr_t(a)); return __atomic_exchange_n(a, v, __ATOMIC_SEQ_CST); } \
+  T __tsan_atomic##N##_fetch_add(volatile T* a, T v, int) { atomic_point(); sync_acquire(uintptr_t(a)); sync_release(uintptr_t(a)); return __atomic_fetch_add(a, v, __ATOMIC_SEQ_CST); } \
+  T __tsan_atomic##N##_fetch_sub(volatile T* a, T v, int) { atomic_point(); sync_acquire(uintptr_t(a)); sync_release(uintptr_t(a)); return __atomic_fetch_sub(a, v, __ATOMIC_SEQ_CST); } \
+  T __tsan_atomic##N##_fetch_and(volatile T* a, T v, int) { atomic_point(); sync_acquire(uintptr_t(a)); sync_release(uintptr_t(a)); return __atomic_fetch_and(a, v, __ATOMIC_SEQ_CST); } \
+  T __tsan_atomic##N##_fetch_or(volatile T* a, T v, int) { atomic_point(); sync_acquire(uintptr_t(a)); sync_release(uintptr_t(a)); return __atomic_fetch_or(a, v, __ATOMIC_SEQ_CST); } \
+  T __tsan_atomic##N##_fetch_xor(volatile T* a, T v, int) { atomic_point(); sync_acquire(uintptr_t(a)); sync_release(uintptr_t(a)); return __atomic_fetch_xor(a, v, __ATOMIC_SEQ_CST); } \
+  T __tsan_atomic##N##_fetch_nand(volatile T* a, T v, int) { atomic_point(); sync_acquire(uintptr_t(a)); sync_release(uintptr_t(a)); return __atomic_fetch_nand(a, v, __ATOMIC_SEQ_CST); } \
+  int __tsan_atomic##N##_compare_exchange_strong(volatile T* a, T* e, T v, int, int) { atomic_point(); sync_acquire(uintptr_t(a)); sync_release(uintptr_t(a)); return __atomic_compare_exchange_n(a, e, v, false, __ATOMIC_SEQ_CST, __ATOMIC_SEQ_CST); } \
+  int __tsan_atomic##N##_compare_exchange_weak(volatile T* a, T* e, T v, int, int) { atomic_point(); sync_acquire(uintptr_t(a)); sync_release(uintptr_t(a)); return __atomic_compare_exchange_n(a, e, v, false, __ATOMIC_SEQ_CST, __ATOMIC_SEQ_CST); } \
+  T __tsan_atomic##N##_compare_exchange_val(volatile T* a, T e, T v, int, int) { atomic_point(); sync_acquire(uintptr_t(a)); sync_release(uintptr_t(a)); __atomic_compare_exchange_n(a, &e, v, false, __ATOMIC_SEQ_CST, __ATOMIC_SEQ_CST); return e; }
   RT_ATOMIC(8, uint8_t)
   RT_ATOMIC(16, uint16_t)
   RT_ATOMIC(32, uint32_t)
